@@ -81,6 +81,7 @@ func LoadEngine(tier string) (*Engine, error) {
 	}
 	e.moduleInits = []*ssa.Function{e.HarnessPkg.Func("init")}
 	e.registerIntrinsics(HarnessPkg)
+	e.registerEnvIntrinsics(HarnessPkg)
 	registerModels(e)
 	return e, nil
 }
